@@ -184,6 +184,33 @@ def eval_pose(P, pose, level, seed, out, info):
                 tot = tot + pg.point_force_wrench(B[:3, 3], m["bottom"] * m["grav"])
                 info["carry_total_wrench"] = max(info.get("carry_total_wrench", 0.0), float(np.abs(_vec(total) - tot).max()) / float(np.linalg.norm(tot)))
             info["plate_change"] = max(info["plate_change"], moved())
+            # ---- queries are functions of (platform geometry, poses, wrench): two-call histories on ONE platform object
+            F = W[6]
+            nF = float(np.linalg.norm(F))
+            load = F + weights
+            Wobj = Wrench(F.copy())                         # the SAME wrench object handed over twice
+            for name, call, want in (("staticForces", lambda: s.staticForces(Wobj), F),
+                                     ("carryMassCalc", lambda: s.carryMassCalc(Wobj)[0], load)):
+                call()
+                t2 = np.array(call(), float).reshape(6)
+                out.append(("second_call_same_argument", float(np.abs(pg.legs_wrench_on_top(B, Tt, P.bl, P.tl, t2) - want).max()) / float(np.linalg.norm(want)), TOL_F, 6))
+                out.append(("argument_modified", float(np.abs(_vec(Wobj) - F).max()), 1e-15, 6))
+            if pose % 7 == 0:
+                # re-spin between two queries at unchanged plate poses: the joint tables change, the poses do not
+                s3 = P.fresh()
+                splib.place(s3, Tt, B)
+                s3.staticForces(Wrench(F.copy()))
+                s3.inverseJacobian()
+                s3.spinCustom(0.4)
+                splib.place(s3, Tt, B)
+                bl2, tl2 = pg.spin_points(P.bl, 0.4), pg.spin_points(P.tl, 0.4)
+                t3 = np.array(s3.staticForces(Wrench(F.copy())), float).reshape(6)
+                out.append(("query_after_respin", float(np.abs(pg.legs_wrench_on_top(B, Tt, bl2, tl2, t3) - F).max()) / nF, TOL_F, 6))
+                J3 = np.array(s3.inverseJacobian(), float)
+                out.append(("query_after_respin", float(np.abs(J3 - pg.inverse_jacobian(B, Tt, bl2, tl2)).max()), TOL_J, None))
+                tb3 = np.array(s3.staticForcesBody(Wrench(F.copy())), float).reshape(6)
+                Fs3 = AdT @ F
+                out.append(("query_after_respin", float(np.abs(pg.legs_wrench_on_top(B, Tt, bl2, tl2, tb3) - Fs3).max()) / max(nF, float(np.linalg.norm(Fs3))), TOL_F, 6))
     return "ok"
 
 
